@@ -57,7 +57,7 @@ cdef class CellIndexingNNPS(NNPS):
             pa_wrapper = <NNPSParticleArrayWrapper> self.pa_wrappers[i]
             num_particles = pa_wrapper.get_number_of_particles()
 
-            self.keys[i] = <u_int*> malloc(num_particles*sizeof(u_int))
+            self.keys[i] = <cell_key_t*> malloc(num_particles*sizeof(cell_key_t))
             self.key_indices[i] = new key_to_idx_t()
 
         self.src_index = 0
@@ -71,7 +71,7 @@ cdef class CellIndexingNNPS(NNPS):
             bint cache = False, bint sort_gids = False):
         cdef int narrays = len(particles)
 
-        self.keys = <u_int**> malloc(narrays*sizeof(u_int*))
+        self.keys = <cell_key_t**> malloc(narrays*sizeof(cell_key_t*))
         self.key_indices = <key_to_idx_t**> malloc(narrays*sizeof(key_to_idx_t*))
 
         self.I = <u_int*> malloc(narrays*sizeof(u_int))
@@ -151,7 +151,7 @@ cdef class CellIndexingNNPS(NNPS):
         cdef double hi2 = self.radius_scale2*h*h
         cdef double hj2 = 0
 
-        cdef map[u_int, pair[u_int, u_int]].iterator it
+        cdef map[cell_key_t, pair[u_int, u_int]].iterator it
 
         cdef int [27]x_boxes
         cdef int [27]y_boxes
@@ -224,7 +224,7 @@ cdef class CellIndexingNNPS(NNPS):
         cdef NNPSParticleArrayWrapper pa_wrapper = self.pa_wrappers[pa_index]
         cdef int num_particles = pa_wrapper.get_number_of_particles()
 
-        cdef u_int* current_keys = self.keys[pa_index]
+        cdef cell_key_t* current_keys = self.keys[pa_index]
 
         cdef int j
         for j in range(num_particles):
@@ -232,7 +232,7 @@ cdef class CellIndexingNNPS(NNPS):
 
 
     cdef void fill_array(self, NNPSParticleArrayWrapper pa_wrapper, int pa_index,
-            UIntArray indices, u_int* current_keys, key_to_idx_t* current_indices) noexcept nogil:
+            UIntArray indices, cell_key_t* current_keys, key_to_idx_t* current_indices) noexcept nogil:
         cdef double* x_ptr = pa_wrapper.x.data
         cdef double* y_ptr = pa_wrapper.y.data
         cdef double* z_ptr = pa_wrapper.z.data
@@ -256,7 +256,7 @@ cdef class CellIndexingNNPS(NNPS):
 
         cdef int id_x, id_y, id_z
 
-        cdef pair[u_int, pair[u_int, u_int]] temp
+        cdef pair[cell_key_t, pair[u_int, u_int]] temp
         cdef pair[u_int, u_int] cell
 
         c_x = self._get_x(current_keys[0], pa_index)
@@ -295,27 +295,29 @@ cdef class CellIndexingNNPS(NNPS):
 
     #### Private protocol ################################################
 
-    cdef inline u_int _get_key(self, u_int n, u_int i, u_int j,
+    cdef inline cell_key_t _get_key(self, u_int n, u_int i, u_int j,
             u_int k, int pa_index) noexcept nogil:
+        # the four fields need more than 32 bits for, e.g., 65536 particles
+        # on a 256 x 256 grid: the key is a 64 bit integer
         return  n + \
-                (1 << self.I[pa_index])*i + \
-                (1 << (self.I[pa_index] + self.J))*j + \
-                (1 << (self.I[pa_index] + self.J + self.K))*k
+                (<cell_key_t>1 << self.I[pa_index])*i + \
+                (<cell_key_t>1 << (self.I[pa_index] + self.J))*j + \
+                (<cell_key_t>1 << (self.I[pa_index] + self.J + self.K))*k
 
     @cython.cdivision(True)
-    cdef inline int _get_id(self, u_int key, int pa_index) noexcept nogil:
-        return key % (1 << self.I[pa_index])
+    cdef inline int _get_id(self, cell_key_t key, int pa_index) noexcept nogil:
+        return key % (<cell_key_t>1 << self.I[pa_index])
 
     @cython.cdivision(True)
-    cdef inline int _get_x(self, u_int key, int pa_index) noexcept nogil:
-        return (key >> self.I[pa_index]) % (1 << self.J)
+    cdef inline int _get_x(self, cell_key_t key, int pa_index) noexcept nogil:
+        return (key >> self.I[pa_index]) % (<cell_key_t>1 << self.J)
 
     @cython.cdivision(True)
-    cdef inline int _get_y(self, u_int key, int pa_index) noexcept nogil:
-        return (key >> (self.I[pa_index] + self.J)) % (1 << self.K)
+    cdef inline int _get_y(self, cell_key_t key, int pa_index) noexcept nogil:
+        return (key >> (self.I[pa_index] + self.J)) % (<cell_key_t>1 << self.K)
 
     @cython.cdivision(True)
-    cdef inline int _get_z(self, u_int key, int pa_index) noexcept nogil:
+    cdef inline int _get_z(self, cell_key_t key, int pa_index) noexcept nogil:
         return key >> (self.I[pa_index] + self.J + self.K)
 
     cdef inline int _neighbor_boxes(self, int i, int j, int k,
@@ -351,7 +353,7 @@ cdef class CellIndexingNNPS(NNPS):
             pa_wrapper = <NNPSParticleArrayWrapper> self.pa_wrappers[i]
             num_particles = pa_wrapper.get_number_of_particles()
 
-            self.keys[i] = <u_int*> malloc(num_particles*sizeof(u_int))
+            self.keys[i] = <cell_key_t*> malloc(num_particles*sizeof(cell_key_t))
             self.key_indices[i] = new key_to_idx_t()
 
         self.current_keys = self.keys[self.src_index]
@@ -364,7 +366,7 @@ cdef class CellIndexingNNPS(NNPS):
 
         self.I[pa_index] = <u_int> (1 + log2(pa_wrapper.get_number_of_particles()))
 
-        cdef u_int* current_keys = self.keys[pa_index]
+        cdef cell_key_t* current_keys = self.keys[pa_index]
         cdef key_to_idx_t* current_indices = self.key_indices[pa_index]
 
         self.fill_array(pa_wrapper, pa_index, indices, current_keys, current_indices)
